@@ -11,7 +11,10 @@
 #include <opm/input/eclipse/Schedule/Schedule.hpp>
 #include <opm/input/eclipse/Schedule/ScheduleState.hpp>
 
+#include <algorithm>
+#include <bitset>
 #include <cstring>
+#include <tuple>
 #include <map>
 
 namespace vf {
@@ -62,15 +65,91 @@ inline std::string pack_hash(const T& obj, std::size_t* len = nullptr) {
     return fnv64(bytes);
 }
 
+
+// ---- a packer that logs every primitive field (kind, bytes, digest of the bytes) of each pass
+using Field = std::pair<int, std::size_t>;       // kind, bytes
+
+struct FieldLog { std::vector<Field> size, pack, unpack; std::vector<std::uint64_t> content; };
+
+// digest of one packed field; an 8-byte value that looks like an address (shared_ptr identity) counts as "a pointer"
+inline std::uint64_t field_digest(const std::vector<char>& buf, std::size_t p0, std::size_t p1) {
+    if (p1 - p0 == 8) {
+        const auto hi = static_cast<unsigned char>(buf[p0 + 5]);
+        if (buf[p0 + 6] == 0 && buf[p0 + 7] == 0 && (hi == 0x55 || hi == 0x56 || hi == 0x7e || hi == 0x7f)) return 0x5054525054525054ull;
+    }
+    std::uint64_t h = 1469598103934665603ull;
+    for (std::size_t i = p0; i < p1; ++i) { h ^= static_cast<unsigned char>(buf[i]); h *= 1099511628211ull; }
+    return h;
+}
+
+template <class T> struct is_bitset : std::false_type {};
+template <std::size_t N> struct is_bitset<std::bitset<N>> : std::true_type {};
+template <class T> constexpr int kind_of() {
+    if constexpr (std::is_same_v<T, std::string>) return 2;
+    else if constexpr (is_bitset<T>::value) return 3;
+    else if constexpr (std::is_same_v<T, Opm::time_point>) return 4;
+    else return 1;
+}
+
+struct LogPacker {
+    Opm::Serialization::MemPacker base;
+    FieldLog* log;
+    template <class T> std::size_t packSize(const T& d) const { const auto n = base.packSize(d); log->size.push_back({kind_of<T>(), n}); return n; }
+    template <class T> std::size_t packSize(const T* d, std::size_t n) const { const auto b = base.packSize(d, n); log->size.push_back({5, b}); return b; }
+    template <class T> void pack(const T& d, std::vector<char>& buf, std::size_t& pos) const {
+        const auto p0 = pos; base.pack(d, buf, pos); log->pack.push_back({kind_of<T>(), pos - p0}); log->content.push_back(field_digest(buf, p0, pos));
+    }
+    template <class T> void pack(const T* d, std::size_t n, std::vector<char>& buf, std::size_t& pos) const {
+        const auto p0 = pos; base.pack(d, n, buf, pos); log->pack.push_back({5, pos - p0}); log->content.push_back(field_digest(buf, p0, pos));
+    }
+    template <class T> void unpack(T& d, const std::vector<char>& buf, std::size_t& pos) const {
+        const auto p0 = pos; base.unpack(d, buf, pos); log->unpack.push_back({kind_of<T>(), pos - p0});
+    }
+    template <class T> void unpack(T* d, std::size_t n, const std::vector<char>& buf, std::size_t& pos) const {
+        const auto p0 = pos; base.unpack(d, n, buf, pos); log->unpack.push_back({5, pos - p0});
+    }
+};
+
+struct LogSerializer : public Opm::Serializer<LogPacker> {
+    using Opm::Serializer<LogPacker>::Serializer;
+    const std::vector<char>& buffer() const { return this->m_buffer; }
+    void set_buffer(const std::vector<char>& b) { this->m_buffer = b; }
+};
+
+
+// digest of the multiset of packed fields: insensitive to the iteration order of unordered containers
+template <class T>
+inline std::string pack_hash_unordered(const T& obj) {
+    FieldLog l;
+    const LogPacker p{{}, &l};
+    LogSerializer ser(p);
+    ser.pack(obj);
+    std::vector<std::tuple<int, std::size_t, std::uint64_t>> f;
+    for (std::size_t i = 0; i < l.pack.size(); ++i) f.emplace_back(l.pack[i].first, l.pack[i].second, l.content[i]);
+    std::sort(f.begin(), f.end());
+    std::uint64_t hh = 1469598103934665603ull;
+    for (const auto& [k, n, d] : f) { for (std::uint64_t v : {std::uint64_t(k), std::uint64_t(n), d}) { hh ^= v; hh *= 1099511628211ull; } }
+    char sbuf[20];
+    std::snprintf(sbuf, sizeof sbuf, "%016llx", static_cast<unsigned long long>(hh));
+    return sbuf;
+}
+
 // member-wise digest of one snapshot
-inline json project_state(const Opm::ScheduleState& st, bool maskActionEvent = false) {
+inline json project_state(const Opm::ScheduleState& st, bool maskActionEvent = false, bool unordered = false) {
     json o = json::object();
-#define VF_MEMBER(m) o[#m] = pack_hash(st.m.get());
+#define VF_MEMBER(m) o[#m] = unordered ? pack_hash_unordered(st.m.get()) : pack_hash(st.m.get());
     VF_MEMBER(gconsale) VF_MEMBER(gconsump) VF_MEMBER(gecon) VF_MEMBER(guide_rate) VF_MEMBER(wlist_manager)
-    VF_MEMBER(well_order) VF_MEMBER(group_order) VF_MEMBER(udq) VF_MEMBER(udq_active)
+    VF_MEMBER(udq) VF_MEMBER(udq_active)
     VF_MEMBER(pavg) VF_MEMBER(wtest_config) VF_MEMBER(glo) VF_MEMBER(network) VF_MEMBER(network_balance)
-    VF_MEMBER(rpt_config) VF_MEMBER(rst_config) VF_MEMBER(bhp_defaults) VF_MEMBER(source)
+    VF_MEMBER(rst_config) VF_MEMBER(bhp_defaults) VF_MEMBER(source)
 #undef VF_MEMBER
+    // members held in unordered containers: projected through their accessors, in a canonical order
+    o["well_order"] = st.well_order().names();
+    o["group_order"] = st.group_order().names();
+    {
+        std::map<std::string, unsigned> m(st.rpt_config().begin(), st.rpt_config().end());
+        o["rpt_config"] = m;
+    }
     {
         // ACTIONX definitions: the stored body keywords cache their SI conversion lazily (a keyword that has been
         // applied once serialises differently from one that has not), so actions are projected through accessors
@@ -144,7 +223,12 @@ inline json project_state(const Opm::ScheduleState& st, bool maskActionEvent = f
                 if (wge.has(wname)) wge.clearEvent(wname, Opm::ScheduleEvents::ACTIONX_WELL_EVENT);
         }
         o["events"] = pack_hash(ev);
-        o["wgevents"] = pack_hash(wge);
+        json wg = json::object();
+        auto names = st.well_order().names();
+        for (const auto& g : st.group_order().names()) names.push_back(g);
+        for (const auto& n : names)
+            if (wge.has(n)) wg[n] = pack_hash(wge.at(n));
+        o["wgevents"] = wg;
     }
     o["geo"] = pack_hash(st.geo_keywords());
     o["msglimits"] = pack_hash(st.message_limits());
